@@ -12,6 +12,7 @@
 from __future__ import annotations
 
 import ast
+import copy
 from typing import Dict, List, Optional
 
 from .astq import FUNC_TYPES, ast_copy, src
@@ -1411,3 +1412,58 @@ def joinpaths(fn) -> int:
     for i, st in enumerate(fn.body):
         fn.body[i] = ast.fix_missing_locations(T().visit(st))
     return count
+
+
+def sink_returns(fn) -> int:
+    """Single-exit style back to early returns: `if c: A else: B` followed by `return <name>` at the end of a body becomes
+    `if c: A; return <name> else: B; return <name>` (recursively through nested if/else tails).  Only a plain name / constant is duplicated."""
+    n = 0
+
+    def ends(body):
+        return bool(body) and isinstance(body[-1], (ast.Return, ast.Raise, ast.Continue, ast.Break))
+
+    def sink(body, ret):
+        """append a copy of `ret` to every open end of `body` (an if/else tail is entered, anything else gets the return after it)"""
+        nonlocal n
+        if ends(body):
+            return
+        if body and isinstance(body[-1], ast.If) and body[-1].orelse:
+            sink(body[-1].body, ret)
+            sink(body[-1].orelse, ret)
+            return
+        body.append(copy.deepcopy(ret))
+        n += 1
+
+    def visit(body):
+        for st in body:
+            for fld in ("body", "orelse", "finalbody"):
+                sub = getattr(st, fld, None)
+                if isinstance(sub, list) and not isinstance(st, (ast.FunctionDef, ast.AsyncFunctionDef, ast.ClassDef)):
+                    visit(sub)
+            for h in getattr(st, "handlers", []) or []:
+                visit(h.body)
+        if len(body) >= 2 and isinstance(body[-1], ast.Return) and isinstance(body[-1].value, (ast.Name, ast.Constant)) and isinstance(body[-2], ast.If) and body[-2].orelse:
+            iff = body[-2]
+            # every branch must assign the returned name or end by itself: otherwise nothing is gained
+            ret = body.pop()
+            sink(iff.body, ret)
+            sink(iff.orelse, ret)
+
+    if isinstance(fn, (ast.FunctionDef, ast.AsyncFunctionDef)):
+        visit(fn.body)
+    return n
+
+
+def drop_self_assignments(fn) -> int:
+    """`x = x` (left behind by splicing a helper that returns its argument) is no statement at all"""
+    n = 0
+    for body in _stmt_lists(fn):
+        for i in range(len(body) - 1, -1, -1):
+            st = body[i]
+            if isinstance(st, ast.Assign) and len(st.targets) == 1 and isinstance(st.targets[0], ast.Name) and isinstance(st.value, ast.Name) and st.targets[0].id == st.value.id:
+                if len(body) > 1:
+                    del body[i]
+                else:
+                    body[i] = ast.copy_location(ast.Pass(), st)
+                n += 1
+    return n
